@@ -34,10 +34,34 @@ From Coq Require Import List.
 From SG Require Import Model.WarmUp.
 Import ListNotations.
 
-Ltac split_ifs :=
+(* case analysis on every comparison that occurs in the goal (each is destructed once, wherever it
+   occurs, so re-associated / negated / reordered tests on the Go side reach the same leaves);
+   leaves with contradictory integer tests are closed by lia *)
+Ltac bool_hyps :=
   repeat match goal with
-         | |- context [if ?c then _ else _] => destruct c eqn:?; cbn [orb andb negb]
-         end; try reflexivity; try discriminate.
+         | H : negb _ = true |- _ => apply negb_true_iff in H
+         | H : negb _ = false |- _ => apply negb_false_iff in H
+         | H : (_ >=? _) = _ |- _ => rewrite Z.geb_leb in H
+         | H : (_ >? _) = _ |- _ => rewrite Z.gtb_ltb in H
+         | H : (_ <? _) = true |- _ => apply Z.ltb_lt in H
+         | H : (_ <? _) = false |- _ => apply Z.ltb_ge in H
+         | H : (_ <=? _) = true |- _ => apply Z.leb_le in H
+         | H : (_ <=? _) = false |- _ => apply Z.leb_gt in H
+         | H : (_ =? _) = true |- _ => apply Z.eqb_eq in H
+         | H : (_ =? _) = false |- _ => apply Z.eqb_neq in H
+         end.
+Ltac split_cmp :=
+  rewrite ?Z.geb_leb, ?Z.gtb_ltb;
+  repeat (match goal with
+          | |- context [PrimFloat.leb ?a ?b] => destruct (PrimFloat.leb a b) eqn:?
+          | |- context [PrimFloat.ltb ?a ?b] => destruct (PrimFloat.ltb a b) eqn:?
+          | |- context [PrimFloat.eqb ?a ?b] => destruct (PrimFloat.eqb a b) eqn:?
+          | |- context [Z.ltb ?a ?b] => destruct (Z.ltb a b) eqn:?
+          | |- context [Z.leb ?a ?b] => destruct (Z.leb a b) eqn:?
+          | |- context [Z.eqb ?a ?b] => destruct (Z.eqb a b) eqn:?
+          | |- context [if ?c then _ else _] => destruct c eqn:?
+          end; cbn [orb andb negb]);
+  try reflexivity; try discriminate; try (exfalso; bool_hyps; lia).
 
 (* math.Nextafter(x, math.MaxFloat64) of the translator's preamble is the model's *)
 Lemma leaf_nextafter_max_ok x : leaf_nextafter_max x = go_nextafter_max x.
@@ -51,7 +75,7 @@ Theorem warmup_New_ok T period cf0 :
 Proof.
   unfold warmup_New, mk_wcfg, default_cold_factor. cbv zeta.
   cbn [w_thr w_period w_cf w_warning w_max w_slope].
-  destruct (cf0 <=? 1); split_ifs.
+  split_cmp.
 Qed.
 
 (* CalculateAllowedTokens: syncToken(previous QPS), then the curve on the loaded bucket *)
@@ -60,8 +84,7 @@ Theorem warmup_CalculateAllowedTokens_ok c qps tokens :
   = (allowed_of c tokens, [(10, [LF qps])]).
 Proof.
   unfold warmup_CalculateAllowedTokens, allowed_of, wi. rewrite !leaf_nextafter_max_ok. cbv zeta.
-  rewrite !Z.geb_leb.
-  destruct (tokens <? 0); split_ifs.
+  split_cmp.
 Qed.
 
 (* ... which is the model's calc when the QPS is the previous window's and the bucket is the one
@@ -78,10 +101,7 @@ Theorem warmup_coolDownTokens_ok c st cur qps :
   = cool_down c st cur qps.
 Proof.
   unfold warmup_coolDownTokens, cool_down, wi, mi. cbv zeta.
-  destruct (stored st <? i64 (w_warning c)) eqn:E.
-  - split_ifs.
-  - assert (H : (i64 (w_warning c) <=? stored st) = true) by (apply Z.leb_le; apply Z.ltb_ge in E; lia).
-    rewrite H. split_ifs.
+  split_cmp.
 Qed.
 
 (* syncToken: the recorded atomic operations, replayed in order on (storedTokens, lastFilledTime) *)
@@ -108,13 +128,18 @@ Proof.
   { apply u64_id. unfold in_u64 in *. pose proof (Z.mod_pos_bound now 1000 ltac:(lia)).
     pose proof (Z.mod_le now 1000 ltac:(lia) ltac:(lia)). lia. }
   unfold warmup_syncToken, sync_token. cbv zeta. rewrite Hc.
-  destruct (now - now mod 1000 <=? last_filled st); [reflexivity|].
   (* the inlined coolDownTokens is cool_down *)
   pose proof (warmup_coolDownTokens_ok c st (now - now mod 1000) qps) as Hcd.
-  unfold warmup_coolDownTokens in Hcd. cbv zeta in Hcd. rewrite Hcd. clear Hcd.
+  unfold warmup_coolDownTokens in Hcd. cbv zeta in Hcd. rewrite ?Hcd. clear Hcd.
   set (nv := cool_down c st (now - now mod 1000) qps).
-  destruct (i64 (nv + go_i64_of_f (- qps)) <? 0) eqn:E;
-    cbn [fold_left apply_act fst snd]; rewrite ?Z.eqb_refl; cbn [fst snd]; reflexivity.
+  rewrite ?Z.geb_leb, ?Z.gtb_ltb.
+  repeat (match goal with
+          | |- context [Z.ltb ?a ?b] => destruct (Z.ltb a b) eqn:?
+          | |- context [Z.leb ?a ?b] => destruct (Z.leb a b) eqn:?
+          | |- context [if ?c then _ else _] => destruct c eqn:?
+          end; cbn [orb andb negb]);
+    cbn [fold_left apply_act fst snd]; rewrite ?Z.eqb_refl; cbn [fst snd];
+    try reflexivity; try (exfalso; bool_hyps; lia).
 Qed.
 
 (* the second time in the same aligned second nothing is touched *)
